@@ -123,7 +123,8 @@ package dotgit
 //gvc:  opt coarse
 //gvc:  opt frame args
 //gvc:  sink Truncate requires compared: old != nil && ref != nil && forall(k, 0, 32, ref.h.hash[k] == old.h.hash[k])
-//gvc:  sink Truncate requires samekind: ref.t == old.t && (ref.t == 2 ==> strid(ref.target) == strid(old.target))
+//gvc:  sink Truncate requires samekind: ref.t == old.t
+//gvc:  sink Truncate requires sametarget: ref.t == 2 ==> bytes_eq(ref.target, old.target)
 //gvc:  grants checked: result == nil ==> f.#checked
 //gvc:end
 
